@@ -56,8 +56,10 @@ TraceNext ==
      /\ bad' = IF e.op \in HasOut /\ ret'.out # e.out
                  THEN Append(bad, [line |-> l, op |-> e.op, k |-> e.k, v |-> e.v,
                                    expected |-> ret'.out, got |-> e.out,
-                                   \* unspecified by C18: after a Cancel*, or "version 0"
-                                   unspecified |-> (cancelled \/ (e.op = "ReadAt" /\ e.v = 0))])
+                                   \* unspecified by C18: "version 0".  (Results after a Cancel* are specified: a cancel
+                                   \* withdraws that overlay's pending write, or one pending delete, of the key - what stays
+                                   \* visible, and what the next commit persists, is what the overlay still holds.)
+                                   unspecified |-> (e.op = "ReadAt" /\ e.v = 0)])
                  ELSE bad
      /\ TLCSet(1, bad') /\ TLCSet(2, l')
 
